@@ -243,8 +243,8 @@ def enum_sweep(ctx):
 
 def run_shard(ctx):
     enum_sweep(ctx)
-    hyp_search(ctx, string_programs(), lambda c: check_case(c, ctx.stats), ctx.scale(120, 4000))
-    hyp_search(ctx, general(), lambda c: check_case(c, ctx.stats), ctx.scale(50, 2000), label="general")
+    hyp_search(ctx, string_programs(), lambda c: check_case(c, ctx.stats), ctx.scale(120, 1500))
+    hyp_search(ctx, general(), lambda c: check_case(c, ctx.stats), ctx.scale(50, 600), label="general")
 
 
 def replay(case):
